@@ -255,7 +255,7 @@ func TestVerif_C02_h3recv(t *testing.T) {
 	s := verifh.New(t, "C02", "h3recv",
 		"generated HTTP/3 response stream: optional unknown/GREASE/CANCEL_PUSH frames, 0..2 (rarely 6) interim HEADERS, final HEADERS (status, lower-case fields, repeated names, Content-Length right / too small / too large / duplicated, Trailer announcement), DATA frames in generated sizes incl. empty ones, optional trailer HEADERS; malformed stream: DATA or HEADERS after trailers, SETTINGS/reserved frame, pseudo field in trailers, upper-case / connection-specific field, missing :status, first frame DATA, truncation at a random offset with FIN or reset, header block above MaxResponseHeaderBytes; x segmentation of the QUIC stream x read sizes {1,7,512,4096,65536,mixed incl. 0,random}; real RoundTrip -> openRequestStream -> doRequest -> ReadResponse -> hijackableBody reads over a fake quic.Connection; compared Read by Read; non-trivial = >=2 segments, >=2 reads, non-empty body")
 	r := s.Rand()
-	n := verifh.N(900, 30000)
+	n := verifh.N(900, 12000)
 	lens := []int{0, 1, 2, 5, 100, 511, 512, 513, 4095, 4096, 4097, 16383, 16384, 16385}
 	for c := 0; c < n; c++ {
 		bl := verifh.Pick(r, lens)
